@@ -166,6 +166,19 @@ class PCinitE:
     def __repr__(self):
         return f"PCinitE(a={self.a!r}, b={self.b!r})"
 
+class PCkwo:
+    # hinted by __init__ only, with a KEYWORD-ONLY parameter
+    __tlmc_fields__ = ("a", "b")
+    def __init__(self, a: int, *, b: str = "x"):
+        self.a = a
+        self.b = b
+    def __eq__(self, o):
+        return type(o) is type(self) and (self.a, self.b) == (o.a, o.b)
+    def __hash__(self):
+        return hash((self.a, self.b))
+    def __repr__(self):
+        return f"PCkwo(a={self.a!r}, b={self.b!r})"
+
 class SObase:
     __slots__ = ("a", "b")
 
@@ -241,11 +254,19 @@ class StrSub(str):
 class FloatSub(float):
     pass
 
+class DateSub(datetime.date):
+    # a user subclass of date (not a datetime)
+    pass
+
 class DTsub(datetime.datetime):
     # a user subclass of datetime as TARGET type (the routine has to build the subclass from every kind of input)
     pass
 
 class IntSub(int):
+    pass
+
+class IntSub2(IntSub):
+    # two levels below the builtin
     pass
 
 UTC = datetime.timezone.utc
